@@ -412,38 +412,54 @@ def search(ctx, reqs, broken_items, heavy):
                 if h != base_sha[key]:
                     chan = job["name"].split("/")[0]
                     found.setdefault((chan, key), (job, k, which))
-    # report: one violation per (channel, diff class); minimal replay = plan prefix
+    # report: one violation per cause signature; replay = the single step if that reproduces, else the plan prefix
     reported = set()
-    for (chan, key), (job, k, which) in sorted(found.items(), key=lambda kv: (kv[0][0], len(kv[1][0]["plan"]), kv[0][1])):
-        if len(reported) >= 6:
+    examined = 0
+    for (chan, key), (job, k, which) in sorted(found.items(), key=lambda kv: (kv[1][1], kv[0][0], kv[0][1])):
+        if len(reported) >= 3 or examined >= 8:
             break
-        res, err = run_job(job, texts=True, upto=k)
-        if res is None:
-            continue
-        text = res["results"][k]["text"][which]
-        if text == base_text[key]:
+        examined += 1
+        text, plan = None, None
+        for cand in ([job["plan"][k]], job["plan"][: k + 1]):
+            res, err = worker(dict(mode="sha", plan=cand, dirty=job["dirty"], texts=True), hashseed=job["hashseed"])
+            if res is None:
+                continue
+            t = res["results"][-1]["text"][which]
+            if t != base_text[key]:
+                text, plan = t, cand
+                break
+        if text is None:
             ctx.count("flaky-difference(not reproduced)")
-            # not reproducible with the plan prefix under the same seed: report as such
-            sig = f"text-differs:{chan}:not-reproduced-on-rerun"
-            cls = "unstable"
+            sig, cls = f"text-differs:{chan}:not-reproduced-on-rerun", "unstable"
+            if sig in reported:
+                continue
+            reported.add(sig)
+            replay = dict(req=list(key), base=dict(hashseed=0, dirty=0, plan=[dict(kind="plain", req=list(key))]),
+                          variant=dict(hashseed=job["hashseed"], dirty=job["dirty"], plan=job["plan"][: k + 1], step=k, which=which),
+                          diff="(digest differed in the batch run but the re-run reproduced the base text: unstable output)")
         else:
             cls = classify_diff(base_text[key], text)
             # is the hash seed the cause?  re-run the very same plan under the base seed
-            res0, _ = worker(dict(mode="sha", plan=job["plan"][: k + 1], dirty=job["dirty"], texts=True), hashseed=0)
-            same_under_seed0 = res0 is not None and res0["results"][k]["text"][which] == base_text[key]
+            res0, _ = worker(dict(mode="sha", plan=plan, dirty=job["dirty"], texts=True), hashseed=0)
+            same_under_seed0 = res0 is not None and res0["results"][-1]["text"][which] == base_text[key]
             cause = "hashseed" if same_under_seed0 and str(job["hashseed"]) != "0" else chan
             sig = f"text-differs:{cause}:{cls}"
-        if sig in reported:
-            continue
-        reported.add(sig)
-        d = udiff(base_text[key], text, "base(hashseed=0, canonical order, fresh process)", f"{job['name']}(hashseed={job['hashseed']}, dirty={job['dirty']}, step {k})")
-        print(f"[C09] digest differs for {list(key)} in configuration {job['name']}:\n{d}", flush=True)
-        replay = dict(req=list(key), base=dict(hashseed=0, dirty=0, plan=[dict(kind="plain", req=list(key))]),
-                      variant=dict(hashseed=job["hashseed"], dirty=job["dirty"], plan=job["plan"][: k + 1], step=k, which=which),
-                      diff=d[:6000])
-        item = broken_items[0] if broken_items else None
-        ctx.violation(sig, f"generated text for {list(key)} differs between two configurations ({job['name']}, class {cls})", replay, broken_item=item)
-        for it in broken_items[1:]:
+            if sig in reported:
+                continue
+            reported.add(sig)
+            d = udiff(base_text[key], text, "base(hashseed=0, canonical order, fresh process)",
+                      f"{job['name']}(hashseed={job['hashseed']}, dirty={job['dirty']}, {len(plan)} step(s))")
+            print(f"[C09] digest differs for {list(key)} in configuration {job['name']}:\n{d}", flush=True)
+            replay = dict(req=list(key), base=dict(hashseed=0, dirty=0, plan=[dict(kind="plain", req=list(key))]),
+                          variant=dict(hashseed=job["hashseed"], dirty=job["dirty"], plan=plan, step=len(plan) - 1, which=which),
+                          diff=d[:6000])
+        # which broken obligations does this failing input answer?  census obligations always (a new hidden-state read
+        # with a text difference); model correspondence only when the difference is in the allocated names
+        naming = cls in ("stack-or-suffix-counter-in-text", "tmp-counter-in-text", "construction-counter-in-text")
+        answered = [b for b in broken_items if "census" in b["name"] or (naming and (b["name"].startswith("correspondence:RefNames") or b["name"].startswith("tmp_unprinted")))]
+        ctx.violation(sig, f"generated text for {list(key)} differs between two configurations ({job['name']}, class {cls})", replay,
+                      broken_item=answered[0] if answered else None)
+        for it in answered[1:]:
             it["has_failing_input"] = True
     ctx.notes["digest_differences"] = len(found)
     probe_dtype_index(ctx, sorted({str(j["hashseed"]) for j in jobs} | {str(k) for k in range(1, 9)}))
